@@ -500,8 +500,14 @@ func run() int {
 			got, ok = globalInitInts(l.prog, gi.Name)
 			want = strings.Join(gi.Ints, ",")
 		}
+		info := fmt.Sprintf("package initialiser assigns the literal %q", want)
+		if gi.IsSplit {
+			got, ok = globalInitSplit(l.prog, gi.Name, gi.SplitSep)
+			want = strconv.Itoa(gi.SplitN)
+			info = fmt.Sprintf("package initialiser assigns strings.Split(<constant>, %q) with %s elements; the variable is only ever loaded elsewhere", gi.SplitSep, want)
+		}
 		ck := &Check{Name: gi.Name + "/init#literal", Class: "init", Fn: gi.Name, Props: gi.Props,
-			Info: fmt.Sprintf("package initialiser assigns the literal %q", want), Src: gi.Src, Goal: "false"}
+			Info: info, Src: gi.Src, Goal: "false"}
 		st := "failed"
 		if ok && got == want {
 			st = "trivial"
@@ -591,6 +597,74 @@ func constStringOf(v ssa.Value, depth int) (string, bool) {
 		}
 	case *ssa.Slice:
 		return constStringOf(x.X, depth+1)
+	}
+	return "", false
+}
+
+// globalInitSplit: X = strings.Split("<const>", "<sep>") is the only store to X in
+// init, and everywhere else in the package X is only loaded (never stored to, never
+// has its address passed on). Returns the number of elements strings.Split yields
+// for a non-empty separator: Count(s, sep) + 1 (the documented library behaviour,
+// trusted as a library contract).
+func globalInitSplit(prog *ssa.Program, qname, sep string) (string, bool) {
+	i := strings.LastIndex(qname, ".")
+	if i < 0 {
+		return "", false
+	}
+	pkgPath, name := qname[:i], qname[i+1:]
+	for _, p := range prog.AllPackages() {
+		if p.Pkg.Path() != pkgPath {
+			continue
+		}
+		g, ok := p.Members[name].(*ssa.Global)
+		if !ok {
+			return "", false
+		}
+		init := p.Func("init")
+		if init == nil {
+			return "", false
+		}
+		count, stores := -1, 0
+		for fn := range ssautil.AllFunctions(prog) {
+			if fn.Pkg != p {
+				continue
+			}
+			for _, b := range fn.Blocks {
+				for _, ins := range b.Instrs {
+					uses := false
+					for _, op := range ins.Operands(nil) {
+						if op != nil && *op == ssa.Value(g) {
+							uses = true
+						}
+					}
+					if !uses {
+						continue
+					}
+					if u, ok := ins.(*ssa.UnOp); ok && u.Op == token.MUL {
+						continue // a load
+					}
+					st, ok := ins.(*ssa.Store)
+					if !ok || fn != init || st.Addr != g {
+						return "address taken or stored outside init: " + fn.String(), false
+					}
+					stores++
+					call, ok := st.Val.(*ssa.Call)
+					if !ok || call.Call.StaticCallee() == nil || call.Call.StaticCallee().String() != "strings.Split" || len(call.Call.Args) != 2 {
+						return "initialiser is not a call of strings.Split", false
+					}
+					s, ok1 := constStringOf(call.Call.Args[0], 0)
+					sp, ok2 := constStringOf(call.Call.Args[1], 0)
+					if !ok1 || !ok2 || sp != sep {
+						return "strings.Split arguments are not the expected constants", false
+					}
+					count = strings.Count(s, sep) + 1
+				}
+			}
+		}
+		if stores != 1 {
+			return fmt.Sprintf("%d stores in init", stores), false
+		}
+		return strconv.Itoa(count), true
 	}
 	return "", false
 }
